@@ -333,7 +333,9 @@ func checkImage(img *vfs.MemFS, g *fsm.GenesisState, n0 *node, osDir string, rec
 func crashMode(seed int64, runs, blocks, density int, out *json.Encoder) error {
 	for r := 0; r < runs; r++ {
 		if err := crashRun(r, seed+int64(r)*101, blocks, density, out); err != nil {
-			return err
+			// the real node could not run its history on the (in-memory) file system at all: recorded, judged by CrashTrace
+			_ = out.Encode(CrashLine{Kind: "history-failed", Run: r, Phase: "none", Err: err.Error()})
+			return nil
 		}
 	}
 	return nil
